@@ -15,7 +15,7 @@ from pyvc import sym
 from pyvc.sym import lift, SComplex, cfrac_eq, frac_eq
 from pyvc.interp import PyRaise
 from pyvc.oblig import obligation, verify, bounded, exhaustive, Goal, merge
-from .common import stable_rng, quick
+from .common import stable_rng, quick, Frame
 from .C08 import _cmat
 
 LEVEL = "proof"
@@ -411,8 +411,10 @@ def ob_native():
         A = mk(n, k)
         if (not (np.linalg.cond(A) <= 1e4)):
             return None
+        fr = Frame(A=A)
         P = pr.Projection(A)
         M = mk(n, 2)
+        fr.watch(M=M, Q=P.Q, oQ=P.oQ)
         tol = 1e-9
         if (not (np.abs(P.Q - P.Q.conj().T).max() <= tol)) or (not (np.abs(P.Q @ P.Q - P.Q).max() <= tol)) or (not (np.abs(P.Q @ A - A).max() <= tol * max(1, np.abs(A).max()))):
             return {"projection identities": n}
@@ -422,6 +424,8 @@ def ob_native():
             return {"reflect twice != identity": float(np.abs(r2 - M).max())}
         if (not (np.abs(P.project(M) + P.oProject(M) - M).max() <= tol * max(1, np.abs(M).max()))) or (not (np.abs(P.oProject(A)).max() <= 1e-8 * max(1, np.abs(A).max()))):
             return {"project + oProject != M (after reflect)": True}
+        if fr.changed():
+            return {"frame: an input or the projector itself changed through use": fr.changed()}
         if (not (np.abs(P.oQ - (np.eye(n) - P.Q)).max() <= tol)):
             return {"oQ != I - Q after use": True}
         B = mk(n, k)
